@@ -194,6 +194,7 @@ class ModuleInfo:
                 self.consts[n.targets[0].id] = n.value
             elif isinstance(n, ast.AnnAssign) and isinstance(n.target, ast.Name) and n.value is not None:
                 self.consts[n.target.id] = n.value
+        self.rebound_globals = {name for n in ast.walk(tree) if isinstance(n, ast.Global) for name in n.names}
 
     def func(self, qual):
         """return the ast.FunctionDef for 'f' or 'Class.f'"""
@@ -213,7 +214,7 @@ class ModuleInfo:
 
 BUILTINS = {"len", "int", "float", "str", "list", "abs", "print", "setattr", "getattr", "exec", "compile", "super",
             "sorted", "isinstance", "type", "repr", "bool", "min", "max", "sum", "range", "dict", "set", "tuple",
-            "hash", "id", "open", "globals", "locals", "vars", "input", "eval", "map", "round", "any", "all", "enumerate", "zip", "reversed",
+            "hash", "id", "open", "hasattr", "next", "iter", "globals", "locals", "vars", "input", "eval", "map", "round", "any", "all", "enumerate", "zip", "reversed",
             "NotImplementedError", "ValueError", "TypeError", "RuntimeError", "KeyError", "IndexError", "Exception"}
 
 
@@ -280,9 +281,24 @@ class Exec:
         self.block(rest, p)
 
     def st_Assign(self, st, rest, p):
-        if len(st.targets) != 1:
-            raise OutOfSubset("chained assignment line %d" % st.lineno)
-        self.each(st.value, p, lambda p2, v: self.store(st.targets[0], v, p2, lambda p3: self.block(rest, p3)))
+        def assign_all(p2, v):
+            # a = b = value: the value is evaluated once and stored left to right
+            def chain(i, p3):
+                if i == len(st.targets):
+                    return self.block(rest, p3)
+                self.store(st.targets[i], v, p3, lambda p4: chain(i + 1, p4))
+            chain(0, p2)
+        self.each(st.value, p, assign_all)
+
+    def st_Continue(self, st, rest, p):
+        self.finish(p, "continue", NONE)
+
+    def st_Break(self, st, rest, p):
+        self.finish(p, "break", NONE)
+
+    def st_Nonlocal(self, st, rest, p):
+        # the enclosing function's locals live in the same env when a closure body is executed in place
+        self.block(rest, p)
 
     def st_AnnAssign(self, st, rest, p):
         if st.value is None:
@@ -295,6 +311,10 @@ class Exec:
 
     def store(self, tgt, v, p, k):
         if isinstance(tgt, ast.Name):
+            if tgt.id in p.ghost.get("global_names", ()):
+                p.effects.append(("store-global", self.mod.modname + "." + tgt.id, v, tgt.lineno))
+                p.ghost.setdefault("global_values", {})[tgt.id] = v
+                return k(p)
             p.env[tgt.id] = v
             return k(p)
         if isinstance(tgt, ast.Attribute):
@@ -315,7 +335,39 @@ class Exec:
                     return k(p2)
                 self.store(tgt.elts[i], v.items[i], p2, lambda p3: chain(i + 1, p3))
             return chain(0, p)
+        if isinstance(tgt, ast.Subscript) and isinstance(tgt.value, ast.Name) and not isinstance(tgt.slice, ast.Slice) and isinstance(p.env.get(tgt.value.id), PyList):
+            # x[i] = v on a list VALUE held by a local: the local is rebound to the updated value; a list that came from
+            # the caller is thereby modified in place (effect `mutate-list`); a tuple raises TypeError
+            name = tgt.value.id
+
+            def go_ix(p2, ix):
+                lst = p2.env[name]
+                if lst.kind == "tuple":
+                    return self.finish(p2, "raise", Raise("TypeError", "item assignment on a tuple (line %d)" % tgt.lineno))
+                if not (z3.is_expr(ix) and ix.sort() == I):
+                    raise OutOfSubset("list index sort (line %d)" % tgt.lineno)
+                ix2 = z3.If(ix < 0, ix + lst.n, ix)
+                pok, pbad = self.split(p2, z3.And(ix2 >= 0, ix2 < lst.n))
+                if pbad is not None:
+                    self.finish(pbad, "raise", Raise("IndexError", "line %d" % tgt.lineno))
+                if pok is not None:
+                    l2 = pok.env[name]
+                    val = v
+                    if z3.is_expr(val) and is_num(val) and val.sort() != l2.sort and l2.sort in (I, R):
+                        val = z3.ToReal(val) if l2.sort == R else val
+                    if not (z3.is_expr(val) and val.sort() == l2.sort):
+                        raise OutOfSubset("list element sort (line %d)" % tgt.lineno)
+                    pok.env[name] = PyList(z3.Store(l2.arr, z3.simplify(ix2), val), l2.n, l2.sort, origin=l2.origin, kind=l2.kind)
+                    if l2.origin != "fresh":
+                        pok.effects.append(("mutate-list", l2.origin, tgt.lineno))
+                    k(pok)
+            return self.each(tgt.slice, p, go_ix)
         raise OutOfSubset("assignment target %s line %d" % (type(tgt).__name__, tgt.lineno))
+
+    def st_Global(self, st, rest, p):
+        # rebinding a module-level name at run time: state shared by every caller (and every thread)
+        p.ghost.setdefault("global_names", set()).update(st.names)
+        self.block(rest, p)
 
     def st_Return(self, st, rest, p):
         if st.value is None:
@@ -368,7 +420,7 @@ class Exec:
         are explored"""
         if st.finalbody:
             raise OutOfSubset("try/finally (line %d)" % st.lineno)
-        sub = Exec(self.mod, self.reg, self.tier)
+        sub = type(self)(self.mod, self.reg, self.tier)
         sub._depth = getattr(self, "_depth", 0)
         outs = sub.run_block(list(st.body), p)
         for (p2, kind, v) in outs:
@@ -378,6 +430,8 @@ class Exec:
                 self.finish(p2, "return", v)
             elif kind == "raise":
                 self.route_exception(st, rest, p2, v)
+            elif kind in ("continue", "break"):
+                self.finish(p2, kind, v)       # leaves the try statement (no finally here) towards the enclosing loop
             else:
                 raise OutOfSubset("loop inside try")
 
@@ -428,11 +482,14 @@ class Exec:
             pt, pf = self.split(p2, cond)
             if pt is not None:
                 v0 = variant_fn(pt) if variant_fn else None
-                sub = Exec(self.mod, self.reg, self.tier)
+                sub = type(self)(self.mod, self.reg, self.tier)
                 sub.finish_loop = True
                 outs = sub.run_block(list(st.body), pt)
                 for (pb, kind, v) in outs:
-                    if kind == "fallthrough":
+                    if kind == "break":
+                        self.block(rest, pb)        # (an else: clause of the loop is skipped on break)
+                        continue
+                    if kind in ("fallthrough", "continue"):
                         pb.obls.append(("loop@%d.inv-preserved" % st.lineno, inv_fn(pb), st.lineno, list(pb.pc), list(pb.facts)))
                         if v0 is not None:
                             v1 = variant_fn(pb)
@@ -537,6 +594,13 @@ class Exec:
                 p.facts.extend(f for f in PI_FACTS if not any(f.eq(g) for g in p.facts))
                 return [(p, PI)]
             return [(p, QName(q))]
+        if e.id in self.mod.consts and e.id in self.mod.rebound_globals:
+            # some function of this module rebinds the name with `global`: its value at this point depends on the calls
+            # made so far, by anyone (shared mutable state)
+            p.effects.append(("global-mutable-read", e.id, e.lineno))
+            p.havoc.append(("module-level variable %s (rebound at run time with `global`)" % e.id, e.lineno))
+            gv = p.ghost.get("global_values", {}).get(e.id)
+            return [(p, gv if gv is not None else fresh("havoc_global_" + e.id, Val))]
         if e.id in self.mod.consts:
             # a module-level binding: immutable constants only (a mutable module-level object is shared state)
             c = self.mod.consts[e.id]
@@ -558,6 +622,14 @@ class Exec:
                         p2.heap[v.oid]["origin"] = key
                         p2.ghost[key] = v
                         p2.effects.append(("global-object-read", e.id, e.lineno))
+                    elif z3.is_expr(v) and v.sort() == Val:
+                        # an object built once at import time by an unmodelled library call: shared by every call; whether
+                        # it is mutable is decided by its constructor (IMMUTABLE_CTORS) when a method is called on it
+                        ctor = ast.unparse(c.func)
+                        ctor = self.mod.names.get(ctor.split(".")[0], ctor.split(".")[0]) + ctor[len(ctor.split(".")[0]):]
+                        p2.ghost.setdefault("opaque_globals", {})[v.sexpr()] = (e.id, ctor)
+                        p2.ghost[key] = v
+                        p2.effects.append(("global-opaque-read", e.id, ctor, e.lineno))
                     elif not isinstance(v, Raise):
                         raise OutOfSubset("module-level call result %s (line %d)" % (e.id, e.lineno))
                     res.append((p2, v))
@@ -592,6 +664,8 @@ class Exec:
                     out.append((p1, QName(q)))
             elif isinstance(base, PyObj):
                 out.append((p1, self.load_attr(p1, base, e.attr)))
+            elif isinstance(base, PyNoneT):
+                out.append((p1, Raise("AttributeError", "None.%s (line %d)" % (e.attr, e.lineno))))
             elif z3.is_expr(base) and base.sort() == Val:
                 out.append((p1, z3.Function("attr:" + e.attr, Val, Val)(base)))
             else:
@@ -737,6 +811,8 @@ class Exec:
                 r = z3.Or(*[self.compare(ast.Eq(), a, x, p) for x in b.items]) if b.items else z3.BoolVal(False)
             elif z3.is_expr(a) and z3.is_expr(b) and a.sort() == S and b.sort() == S:
                 r = z3.Contains(b, a)      # substring test
+            elif z3.is_expr(b) and b.sort() == Val:
+                r = z3.Function("dict_has", Val, Val, B)(b, to_val(a))     # membership in an opaque container
             else:
                 raise OutOfSubset("`in` on %r" % (b,))
             return r if isinstance(op, ast.In) else z3.Not(r)
@@ -746,7 +822,15 @@ class Exec:
                 return r if isinstance(op, ast.Eq) else z3.Not(r)
             raise OutOfSubset("ordering comparison with None")
         if not (z3.is_expr(a) and z3.is_expr(b)):
+            if isinstance(op, (ast.Eq, ast.NotEq)) and any(z3.is_expr(x) and x.sort() == Val for x in (a, b)):
+                r = to_val(a) == to_val(b)       # an opaque value against a list / tuple / object: equality of the injections
+                return r if isinstance(op, ast.Eq) else z3.Not(r)
             raise OutOfSubset("comparison of %r and %r" % (a, b))
+        if type(op) in (ast.Lt, ast.LtE, ast.Gt, ast.GtE) and {str(a.sort()), str(b.sort())} in ({"Val", "Real"}, {"Val", "Int"}):
+            # the result of an unmodelled library call compared with a number: read as the (unknown) number it must be
+            v2r = z3.Function("val2real", Val, R)
+            a = v2r(a) if a.sort() == Val else a
+            b = v2r(b) if b.sort() == Val else b
         if is_num(a) and is_num(b):
             a, b = coerce2(a, b)
         elif a.sort() != b.sort():
@@ -780,9 +864,17 @@ class Exec:
         ln = e.lineno
         if z3.is_expr(a) and z3.is_expr(b) and a.sort() == S and b.sort() == S and isinstance(op, ast.Add):
             return [(p, z3.Concat(a, b))]
+        if isinstance(op, ast.Add) and z3.is_expr(a) and z3.is_expr(b) and {str(a.sort()), str(b.sort())} == {"String", "Val"}:
+            # str + <result of an unmodelled call>: the opaque value is read as the str it must be for `+` not to raise
+            v2s = z3.Function("val2str", Val, S)
+            return [(p, z3.Concat(a if a.sort() == S else v2s(a), b if b.sort() == S else v2s(b)))]
         if z3.is_expr(a) and a.sort() == S and isinstance(op, ast.Mod):
             # "fmt" % value  -> uninterpreted text; total for %s of a str
             return [(p, z3.Function("percent_format", S, Val, S)(a, to_val(b)))]
+        if z3.is_expr(a) and z3.is_expr(b) and isinstance(op, (ast.Add, ast.Sub, ast.Mult, ast.Div)) and {str(a.sort()), str(b.sort())} in ({"Val", "Real"}, {"Val", "Int"}):
+            v2r = z3.Function("val2real", Val, R)
+            a = v2r(a) if a.sort() == Val else a
+            b = v2r(b) if b.sort() == Val else b
         if not (is_num(a) and is_num(b)):
             raise OutOfSubset("binary %s on %r, %r (line %d)" % (type(op).__name__, a, b, ln))
         if isinstance(op, ast.Add):
@@ -957,7 +1049,7 @@ class Exec:
         if getattr(self, "_depth", 0) >= self.INLINE_DEPTH:
             raise OutOfSubset("helper inlining deeper than %d (recursion?) at %s" % (self.INLINE_DEPTH, q))
         env = _bind_params(fn, pos, kw)
-        sub = Exec(self.mod, self.reg, self.tier)
+        sub = type(self)(self.mod, self.reg, self.tier)
         sub._depth = getattr(self, "_depth", 0) + 1
         saved = p.env
         p.env = env
